@@ -96,6 +96,18 @@ def mean_std_structure_contract(L):
             cl.append(eq(f"mean_leaf{k}", x, y))
         for k, (x, y) in enumerate(zip(jax.tree_util.tree_leaves(sd), jax.tree_util.tree_leaves(list(std)))):
             cl.append(eq(f"std_squared_leaf{k}", x * x, y * y))
+        # the flat representation: documented ravel order of the mean, diagonal covariance diag(std^2)
+        per = jnp.stack([jnp.concatenate([jnp.ravel(l) for l in jax.tree_util.tree_leaves(c)]) for c in tcoeffs])  # (n, d)
+        n, d = per.shape
+        if L is IsoL:
+            var = jnp.stack([jnp.reshape(jnp.asarray(s_), ()) ** 2 for s_ in std])  # one std per coefficient
+            cl += [eq("mean_flat_layout", mflat, per), eq("cov_is_diag_of_squared_stds", chol @ chol.T, jnp.diag(var))]
+        else:
+            sper = jnp.stack([jnp.concatenate([jnp.ravel(l) for l in jax.tree_util.tree_leaves(c)]) for c in std])  # (n, d)
+            if L is DenseL:
+                cl += [eq("mean_flat_layout", mflat, per.reshape(-1)), eq("cov_is_diag_of_squared_stds", chol @ chol.T, jnp.diag(sper.reshape(-1) ** 2))]
+            else:
+                cl += [eq("mean_flat_layout", mflat, per.T), eq("cov_is_diag_of_squared_stds", jnp.einsum("dij,dkj->dik", chol, chol), jax.vmap(jnp.diag)(sper.T ** 2))]
         return cl
 
     def instances(tier):
